@@ -29,8 +29,11 @@ type World struct {
 	MayPanic  map[string]string
 	Inline    map[string]bool // dependency functions whose real bodies may be inlined (prefix match on short name)
 
-	MaxSteps int
-	MaxDepth int
+	MaxSteps      int
+	MaxDepth      int
+	DefaultUnroll int
+	GenSeconds    int
+	TmpDir        string
 
 	mu      sync.Mutex
 	fnInfos map[*ssa.Function]*fnInfo
@@ -48,6 +51,7 @@ type Harness struct {
 	Expect   map[string]string // label -> known finding id expected to fail
 	Bounded  string
 	Contract *Contract
+	Paths    bool // path-sensitive execution (no joins); infeasible paths are pruned with the solver
 }
 
 type Contract struct {
@@ -98,7 +102,7 @@ func Load(dir string, tags string) (*World, error) {
 		Fset: prog.Fset, Prog: prog, Repo: map[string]bool{},
 		Contracts: map[string]*Contract{}, Models: map[string]*ssa.Function{}, Loops: map[string]*LoopSpec{},
 		MayPanic: map[string]string{}, Inline: map[string]bool{},
-		MaxSteps: 400000, MaxDepth: 24,
+		MaxSteps: 400000, MaxDepth: 24, DefaultUnroll: 3, GenSeconds: 90,
 		fnInfos: map[*ssa.Function]*fnInfo{}, fnIDs: map[*ssa.Function]uint64{}, byName: map[string]*ssa.Function{},
 	}
 	for i, sp := range spkgs {
@@ -214,7 +218,7 @@ func (w *World) readDirectives(pkg *ssa.Package, f *ast.File) error {
 					return fmt.Errorf("%s: lemma directive without function", where)
 				}
 				for _, g := range fns {
-					w.Harnesses = append(w.Harnesses, &Harness{Name: shortFn(g), Fn: g, Kind: "lemma", Props: props, Expect: parseExpect(kv["expect"]), Bounded: kv["bounded"]})
+					w.Harnesses = append(w.Harnesses, &Harness{Name: shortFn(g), Fn: g, Kind: "lemma", Props: props, Expect: parseExpect(kv["expect"]), Bounded: kv["bounded"], Paths: kv["mode"] == "paths"})
 				}
 			case "contract":
 				if fn == nil {
@@ -236,7 +240,7 @@ func (w *World) readDirectives(pkg *ssa.Package, f *ast.File) error {
 					}
 					w.Contracts[target] = ct
 					if kv["verify"] != "no" {
-						w.Harnesses = append(w.Harnesses, &Harness{Name: shortFn(g), Fn: g, Kind: "contract", Props: props, Target: target, Expect: parseExpect(kv["expect"]), Contract: ct, Bounded: kv["bounded"]})
+						w.Harnesses = append(w.Harnesses, &Harness{Name: shortFn(g), Fn: g, Kind: "contract", Props: props, Target: target, Expect: parseExpect(kv["expect"]), Contract: ct, Bounded: kv["bounded"], Paths: kv["mode"] == "paths"})
 					}
 				}
 			case "loop":
